@@ -33,7 +33,7 @@ RULE = (
     "streams = sequences of <= B items from {A7,A9,B8,A13 (payload contains registered-ID octets), garbage runs G1,G3,G7 of 0xFF} "
     "optionally ending in an incomplete packet (prefix 1..8 of A9); plus every stream of <= 3 items over {A7,B8,H2} that contains the "
     "garbage run H2 = 00 19 (first octets of both registered IDs, never a registered ID) and streams around a 265-octet packet A265 "
-    "(length field 0x0102: both octets significant); per stream every schedule in {no cut, cut, cut+parse}^(n-1) for "
+    "(length field 0x0102: both octets significant; H2 streams: every cut set with <= KCUT cuts, A265 streams: <= 1 cut quick / <= 2 thorough, each cut plain or parsing); per product stream every schedule in {no cut, cut, cut+parse}^(n-1) for "
     "n <= NALL, and for longer streams every cut set with <= KCUT cuts x every choice of which cuts also parse; "
     "state-hashing exploration (position, exact chunk tuple, packets emitted) in the thorough tier. After every parser call: returned "
     "packets so far == the complete registered packets available, byte-identical and in order; the deque content is a suffix of the "
@@ -202,11 +202,11 @@ def run_schedule(sp, pids, stream, spans, tail_start, missing, sched, held=None)
     def check(pos, res):
         nonlocal returned
         # independence: the lists and bytearrays handed out by earlier calls still have their value
+        if [bytes(x) for x in objs] != returned:
+            return (INDEP + "/returned-packet-changed-by-a-later-call", {"pos": pos, "now": [bytes(x) for x in objs], "when_returned": returned})
         for lst, snap in lists:
             if [bytes(x) for x in lst] != snap:
                 return (INDEP + "/returned-list-changed-by-a-later-call", {"pos": pos, "now": [bytes(x) for x in lst], "when_returned": snap})
-        if [bytes(x) for x in objs] != returned:
-            return (INDEP + "/returned-packet-changed-by-a-later-call", {"pos": pos, "now": [bytes(x) for x in objs], "when_returned": returned})
         if res is not None:
             objs.extend(res)
             lists.append((res, [bytes(x) for x in res]))
@@ -380,8 +380,9 @@ class _Queue:
     def reset(self):
         self.dq = collections.deque()
         self.pos = 0
-        self.objs = []
-        self.lists = []
+        self.objs = []  # the very bytearrays the parser returned for this queue
+        self.held_values = []  # their values when returned
+        self.lists = []  # (the very list a call returned, its value at that time)
 
     def events(self, sched):
         """parser-call events of a schedule: each = list of (start, end) chunks appended before the call"""
@@ -402,16 +403,17 @@ class _Queue:
     def after_call(self, res):
         """res: list returned by a call on THIS queue, None after a call on the other queue / an idle call"""
         pos = self.pos
+        k = len(self.objs)
+        if [bytes(x) for x in self.objs] != self.held_values:
+            return (INDEP + "/returned-packet-changed-by-a-later-call", {"pos": pos, "now": [bytes(x) for x in self.objs], "when_returned": self.held_values})
         for lst, snap in self.lists:
             if [bytes(x) for x in lst] != snap:
                 return (INDEP + "/returned-list-changed-by-a-later-call", {"pos": pos, "now": [bytes(x) for x in lst], "when_returned": snap})
-        k = len(self.objs)
-        if [bytes(x) for x in self.objs] != self.packets[:k]:
-            return (INDEP + "/returned-packet-changed-by-a-later-call", {"pos": pos, "now": [bytes(x) for x in self.objs], "when_returned": self.packets[:k]})
         if res is not None:
             new = [bytes(x) for x in res]
             want = self.packets[k:self.nexp[pos]]
             self.objs.extend(res)
+            self.held_values.extend(new)
             self.lists.append((res, new))
             if new != want:
                 kind = "returned/packet-missing" if (len(new) < len(want) and new == want[:len(new)]) else "returned/wrong-packets"
